@@ -100,6 +100,7 @@ fn op_list(thorough: bool) -> Vec<SendOp> {
     // larger than 64 KiB (more than one 16-bit length, more than one write) and many distinct atoms
     payloads.push(OwnedTerm::Binary((0..65_537u32).map(|i| (i % 251) as u8).collect()));
     payloads.push(OwnedTerm::Binary((0..200_000u32).map(|i| (i % 241) as u8).collect()));
+    payloads.push(OwnedTerm::Binary((0..(8u32 << 20)).map(|i| (i % 239) as u8).collect()));
     payloads.push(OwnedTerm::Tuple((0..254).map(|i| OwnedTerm::Atom(Atom::new(format!("atom_{}", i)))).collect()));
     payloads.push(OwnedTerm::List((0..300).map(|i| OwnedTerm::Atom(Atom::new(format!("a{}", i)))).collect()));
     if thorough { payloads.extend(universe::leaves_full(false).into_iter().filter(|t| erltf::encode(t).map(|b| b.len() < 4096).unwrap_or(false))); }
@@ -119,6 +120,16 @@ fn op_list(thorough: bool) -> Vec<SendOp> {
         }
     }
     ops
+}
+
+/// One or two operations of each of the six kinds (for the no-session cases, where every kind must fail without writing).
+fn ops_of_every_kind() -> Vec<SendOp> {
+    let all = op_list(false);
+    let mut out: Vec<SendOp> = vec![];
+    for kind in 0..6 {
+        out.extend(all.iter().filter(|o| match (kind, o) { (0, SendOp::Send { .. }) | (1, SendOp::RegSend { .. }) | (2, SendOp::Link { .. }) | (3, SendOp::Unlink { .. }) | (4, SendOp::Monitor { .. }) | (5, SendOp::Demonitor { .. }) => true, _ => false }).take(3).cloned());
+    }
+    out
 }
 
 fn read_frame(body: &[u8], dist_hdr: bool, cache: &mut RxCache) -> Result<DistMsg, String> {
@@ -161,9 +172,21 @@ fn inputs_exec(dist_hdr: bool, thorough: bool, ctx: &WorkerCtx) -> ExecResult {
         let mut cache = RxCache::default();
         let mut seen_frames = 0usize;
         let no_probe = || 0u64;
+        let mut nth = 0usize;
         for op in op_list(thorough) {
             res.steps += 1;
-            let r = op.apply(&mut cw.conn).await;
+            nth += 1;
+            if nth % 9 == 1 {
+                // an operation whose payload cannot be encoded (atom of 70 000 bytes) fails, writes nothing and leaves nothing
+                // behind for the operations that follow
+                let before = cw.peer.log.len();
+                let bad = cw.conn.send_message(pid_plain(1), pid_remote(1), OwnedTerm::Tuple(vec![OwnedTerm::Integer(nth as i64), OwnedTerm::Atom(Atom::new("x".repeat(70_000)))])).await;
+                cw.w.settle(&mut cw.peer, &no_probe).await;
+                if bad.is_ok() || cw.peer.log.len() != before { res.violations.push(("an operation with an unencodable payload succeeded or wrote bytes".into(), json!({"returned_ok": bad.is_ok(), "bytes_written": cw.peer.log.len() - before}))); }
+            }
+            // the peer keeps reading while the operation is in progress (a frame larger than the socket buffers would
+            // otherwise wait for a reader that never comes)
+            let r = { let fut = op.apply(&mut cw.conn); tokio::pin!(fut); loop { tokio::select! { biased; r = &mut fut => break r, _ = tokio::task::yield_now() => { cw.peer.pump(); } } } };
             cw.w.settle(&mut cw.peer, &no_probe).await;
             let (frames, rest) = cw.peer.dist_frames();
             let new: Vec<&Vec<u8>> = frames.iter().skip(seen_frames).collect();
@@ -309,7 +332,7 @@ fn unconnected_exec(kind: usize, ctx: &WorkerCtx) -> ExecResult {
             peer_opt = Some(peer);
         }
         let before = peer_opt.as_ref().map(|p| p.log.len()).unwrap_or(0);
-        for op in op_list(false).into_iter().take(20) {
+        for op in ops_of_every_kind() {
             res.steps += 1;
             if op.apply(&mut conn).await.is_ok() { res.violations.push(("operation succeeded before the handshake completed".into(), json!({"operation": op.short(), "state": conn.state().as_str()}))); }
         }
